@@ -69,12 +69,25 @@ def check_db(s, db, case):
     return viols, sql
 
 
-def evaluate(s, style, ctx: Ctx = None, gen_name='?'):
+def evaluate(s, style, ctx: Ctx = None, gen_name='?', script=()):
     viols = []
     for how, db, text in C.databases(s, style, ctx):
         case = dict(schema=model.to_json(s), how=how, text=text, gen=gen_name)
         vs, sql = check_db(s, db, case)
         viols += vs
+        if script and not vs:
+            # second phase: the database just rendered is edited in place and rendered again
+            try:
+                s2 = C.edited(s, db, script)
+            except Exception as e:  # noqa
+                s2 = None
+                viols.append(Viol(f'c04:edit-raised:{type(e).__name__}', f'in-place edit raised {type(e).__name__}: {e}', dict(case, script=[list(x) for x in script])))
+            if s2 is not None:
+                case2 = dict(case, script=[list(x) for x in script], phase='edited')
+                vs2, _ = check_db(s2, db, case2)
+                viols += [Viol(v.bucket + ':after-edit', 'after render, in-place edits and a second render: ' + v.message, case2, size=v.size) for v in vs2]
+                if ctx is not None:
+                    ctx.record(thash('edited' + how + model.to_json(s2).__repr__()), nontrivial(s2), ['phase:edited', f'how:{how}'])
         if ctx is not None:
             nt = nontrivial(s)
             sample = dict(construction=how, sql=sql) if nt and sql and len(sql) < 800 and len(ctx.samples) < ctx.MAX_SAMPLES else None
@@ -90,7 +103,12 @@ def replay(case):
         db = PyDBML.parse(case['text'], allow_properties=True) if s.allow_properties else PyDBML.parse(case['text'])
     else:
         db = build(s)
-    return check_db(s, db, {k: v for k, v in case.items() if k != 'sql'})[0]
+    base = {k: v for k, v in case.items() if k != 'sql'}
+    if case.get('phase') == 'edited':
+        db.sql
+        s2 = C.edited(s, db, [tuple(x) for x in case['script']])
+        return check_db(s2, db, base)[0]
+    return check_db(s, db, base)[0]
 
 
 @st.composite
@@ -123,8 +141,8 @@ def shard(ctx: Ctx):
     sizes = gen.QUICK if quick else gen.THOROUGH
     sizes = gen.Sizes(tables=sizes.tables, columns=sizes.columns, indexes=1, enums=1, items=2, refs=8, groups=0, stickies=0, props=1)
     n = 110 if quick else 1200
-    hyp_run(ctx, 'parsed+built', C.cases(C.parse_features(), sizes, min_tables=1),
-            lambda c: evaluate(c[0], c[1], ctx, 'parse-domain'), n)
+    hyp_run(ctx, 'parsed+built', st.tuples(C.cases(C.parse_features(), sizes, min_tables=1), C.edit_scripts()),
+            lambda c: evaluate(c[0][0], c[0][1], ctx, 'parse-domain', c[1]), n)
     hyp_run(ctx, 'built-only', C.cases(C.built_features(), sizes, with_style=False, min_tables=1),
             lambda c: evaluate(c[0], None, ctx, 'api-domain'), n // 2)
     hyp_run(ctx, 'inline-composite', api_inline_composite(C.built_features(), sizes),
